@@ -28,6 +28,17 @@ def run(rep, tier, seed, rng):
             if rng.random() < 0.15: sc["generate_only"] = True
             steps.append((cc, sc))
         items.append((f, steps))
+    # directed: a task that asks laze to leave ctrl-c to it (ignore_ctrl_c) and whose shell dies from a signal has failed
+    # like any other; the same task exiting 1; its sibling without the flag
+    df = directed.base([], [{"name": "app", "sources": ["main.c"], "tasks": {"dbg": {"cmd": [mcn.TASK_CMD], "ignore_ctrl_c": True},
+                                                                              "run": {"cmd": [mcn.TASK_CMD]}}}])
+    dsteps = []
+    for task in ("dbg", "run"):
+        for kill in (True, False):
+            for multiple, kg in ((True, 1), (True, 0), (False, 1)):
+                dsteps.append(({} if multiple else {"builders": ["b0"]},
+                               {"task": task, "multiple": multiple, "keep_going": kg, "ninja_rc": 0, "fail": [("b0", "app")], "kill_tasks": kill}))
+    items.insert(0, (df, dsteps))
     results = mcn.run_scenarios(laze, driver, items)
     distinct = set(); ndis = 0; nrun = 0
     for f, c, sc, o, rp in results:
